@@ -672,6 +672,13 @@ func buildConnectModel(p *Prog, a *connectAnchors) *connectModel {
 			if al, ok := x.X.(*ssa.Alloc); ok {
 				return fmt.Sprintf("local:%s@%p#f%d", al.Comment, al, x.Field)
 			}
+			/* A field of one of several local structs, chosen by the way
+			here (r := &refusal{…} in each case of a switch). */
+			if _, isPhi := x.X.(*ssa.Phi); isPhi {
+				if av := r.Eval(x.X); avPtr == av.K && strings.HasPrefix(av.S, "local:") {
+					return fmt.Sprintf("%s#f%d", av.S, x.Field)
+				}
+			}
 			/* A field of the struct a pointer parameter points at, when
 			that is part of the broker (us *side = &b.in: us.cancel). */
 			if pa, ok := x.X.(*ssa.Parameter); ok {
